@@ -115,6 +115,20 @@ def check_path(ex, w, handler, result, log, pre, msg_info):
             changed = True if not ps else b_not(values_equal(ex, post[name], pre_snap(w)[name]))
             acc = accept_of(w, post[name].fields[0], kind)
             need('C05', f'{handler}:{name}-unverified', f'the replica adopted a {name} that did not pass verification', z3.Implies(zb(changed), zb(acc)))
+    # ---- C05 (specification conformance): an accepted message hands its certificates to the replica — process_commit_qc /
+    # process_timeout_qc of the spec are unconditional: afterwards the replica holds certificates at least as high
+    if handler in ('on_new_view', 'on_proposal') and result != 'pending' and result.variant == 0 and 'just' in msg_info:
+        d = msg_info['just']; jk = msg_info['just_kind']
+        pcs, pcv = opt_view(post['cqc'], 'c'); pts, ptv = opt_view(post['tqc'], 't')
+        if jk == 'Commit':
+            need('C05', f'{handler}:certificate-not-absorbed', 'the message was accepted but the commit certificate it carries was not adopted (the replica holds no commit certificate at least as high)',
+                 zb(num_cmp('Ge', pcv, d['view'])) if pcs else z3.BoolVal(False))
+        else:
+            need('C05', f'{handler}:certificate-not-absorbed', 'the message was accepted but the timeout certificate it carries was not adopted (the replica holds no timeout certificate at least as high)',
+                 zb(num_cmp('Ge', ptv, d['view'])) if pts else z3.BoolVal(False))
+            if d.get('hq') is not None:
+                need('C05', f'{handler}:certificate-not-absorbed', 'the message was accepted but the commit certificate inside its timeout certificate was not adopted (the replica holds no commit certificate at least as high)',
+                     zb(num_cmp('Ge', pcv, d['hq']['view'])) if pcs else z3.BoolVal(False))
     # ---- C05: a view change is justified by an accepted certificate of the preceding view
     cs, cv = opt_view(post['cqc'], 'c'); ts, tv = opt_view(post['tqc'], 't')
     just = []
@@ -309,7 +323,7 @@ def run_one(arg):
                 seen.add(key)
                 conc = None
                 try:
-                    conc = concretize(m, wref, handler, inforef, N) if mode == 'full' else None
+                    conc = concretize(m, wref, handler, inforef, N, evs) if mode == 'full' else None
                 except Exception as ex_:
                     conc = None
                 out['viol'].append(dict(prop=prop, key=key, text=f'{text} (handler {handler}, N={N})', witness=witness(m), events=evs, replay=conc))
@@ -321,7 +335,7 @@ def run_one(arg):
     return out
 
 
-def concretize(m, w, handler, info, N):
+def concretize(m, w, handler, info, N, evs=()):
     """concrete description of a counterexample for the replay generator (plain python data)"""
     def iv(e):
         if e is None: return None
@@ -342,6 +356,9 @@ def concretize(m, w, handler, info, N):
     out = dict(handler=handler, N=N, weights=[max(1, iv(x.e)) for x in w.ws], first_block=iv(w.first_block.e),
                pre=dict(view=iv(pre['view']), phase=pre['phase'], hv=rc(pre['hv']), cqc=rc(pre['cqc']), tqc=tq(pre['tqc'])))
     out['has_cache'] = bool(getattr(w, 'has_cache', False))
+    out['set_state_plan'] = [e == 'persist' for e in evs if e in ('persist', 'persist_failed')]
+    out['reject_payload'] = any(e[0] == 'env_fail' and e[1] == 'verify_payload' for e in w.log)
+    out['other_env_failure'] = any(e[0] == 'env_fail' and e[1] != 'verify_payload' for e in w.log)
     if 'author' in info: out['author'] = info['author']; out['sig_ok'] = bool(iv(info['sig_ok']))
     if handler in ('on_proposal', 'on_new_view'):
         out['just_kind'] = info['just_kind']; out['just'] = rc(info['just']) if info['just_kind'] == 'Commit' else tq(info['just'])
@@ -387,14 +404,14 @@ def run_all(rep, db, tier, props, handlers=('start_timeout', 'start_new_view', '
                     cls = 'panic' if v['prop'] == 'C10' else replica_replay.key_class(v['key'])
                     outp = rr['output']
                     hit = (f'[{cls}]' in outp) if cls != 'panic' else ('panicked at' in outp and 'step obligations violated' not in outp)
-                    unforceable = [e for e in v.get('events', []) if e in ('persist_failed', 'env_fail')] + (['vote cache'] if v['replay'].get('has_cache') else [])
+                    unforceable = (['engine call'] if v['replay'].get('other_env_failure') else []) + (['vote cache'] if v['replay'].get('has_cache') else [])
                     if rr['reproduced'] is True and hit:
                         repro = True; v['text'] += ' | replay: reproduced on the real replica (step API)'
                     elif rr['reproduced'] is None:
                         rep.add(F.Obligation('replay ' + v['key'], 'inconclusive', 'replay harness failed: ' + outp[-1500:]))
                         v['text'] += ' | replay: harness failed to build or run'
                     elif unforceable:
-                        v['text'] += ' | replay: not reproducible by the step replay (the path needs an engine call to fail, which the in-memory engine never does, or a non-empty vote cache, which a restart empties); solver witness only'
+                        v['text'] += ' | replay: not reproducible by the step replay (the path needs wait_until_persisted / queue_block to fail, which the in-memory store never does, or a non-empty vote cache, which a restart empties); solver witness only'
                     else:
                         repro = False; v['text'] += ' | replay: the real replica did not violate this obligation on the concretised witness'
                 except Exception as ex_:
